@@ -8,7 +8,9 @@ Open Scope N_scope.
 
 (* The round trip ConnectionState -> MarshalBinary -> UnmarshalBinary -> Resume is defined exactly
    on the states with a suite known to ciphersuite.ForID(id, nil), a version other than 1.3, a
-   sequence counter for the current local epoch, a local epoch other than 0 and a master secret. *)
+   sequence counter for the current local epoch, a local epoch other than 0, a master secret and a
+   next sequence number of at most 2^48 (920182a: a counter that went beyond - an exhausted
+   connection that kept attempting writes - is refused like a damaged one). *)
 Theorem C19_import_export_defined_iff :
   forall s, (exists s', import_export s = Some s') <-> exportable s.
 Proof. exact import_export_defined_iff. Qed.
@@ -166,18 +168,144 @@ Theorem C19_unknown_suite_refused :
 Proof. exact unknown_suite_refused. Qed.
 Print Assumptions C19_unknown_suite_refused.
 
-(* ConnectionState() of an established connection does not hit the unchecked index ... *)
-Theorem C19_gen_state_no_panic :
-  forall s, i_local_epoch s < N.of_nat (length (i_local_seq s)) -> gen_state s <> Panics.
-Proof. exact gen_state_no_panic. Qed.
-Print Assumptions C19_gen_state_no_panic.
+(* F73 (repaired by 4d323b9): ConnectionState() never panics - also not from another goroutine
+   while the handshake switches the local epoch ... *)
+Theorem C19_gen_state_never_panics :
+  forall s, gen_state s <> Panics.
+Proof. exact gen_state_never_panics. Qed.
+Print Assumptions C19_gen_state_never_panics.
 
-(* ... which exists (handshake still running; outside the property) *)
-Theorem C19_gen_state_panics_mid_handshake :
-  exists s, i_suite s = Some 168 /\ i_version s = v12 /\ i_local_epoch s = 1 /\ i_local_seq s = [4] /\
-            gen_state s = Panics.
-Proof. exact gen_state_panics_mid_handshake. Qed.
-Print Assumptions C19_gen_state_panics_mid_handshake.
+(* ... in that window the state is reported as not available ... *)
+Theorem C19_gen_state_epoch_switch_refused :
+  i_suite epoch_switch_window = Some 168 /\ i_local_epoch epoch_switch_window = 1 /\
+  i_local_seq epoch_switch_window = [4] /\ gen_state epoch_switch_window = Refused.
+Proof. exact gen_state_epoch_switch_refused. Qed.
+Print Assumptions C19_gen_state_epoch_switch_refused.
+
+(* ... regression witness: the unchecked index of the code before the repair *)
+Theorem C19_gen_state_unchecked_index_refuted :
+  gen_state_gen false epoch_switch_window = Panics /\
+  (forall chk s, i_local_epoch s < N.of_nat (length (i_local_seq s)) -> gen_state_gen chk s <> Panics).
+Proof. exact gen_state_unchecked_index_refuted. Qed.
+Print Assumptions C19_gen_state_unchecked_index_refuted.
+
+Theorem C19_export_bounds_as_coded :
+  if export_checks_counter_exists then forall s, gen_state s <> Panics
+  else exists s, gen_state s = Panics.
+Proof. exact export_bounds_as_coded. Qed.
+Print Assumptions C19_export_bounds_as_coded.
+
+(* F74 (repaired by 920182a): every accepted state - genuine or damaged - carries a next sequence
+   number of at most 2^48, and the resumed sender never wraps: its numbers are pairwise distinct,
+   none below the accepted one, none above 2^48 - 1. *)
+Theorem C19_imported_seq_within_limit :
+  forall p x, gen_internal p = Some x ->
+  i_local_seq x = repeat 0 (N.to_nat (p_local_epoch p)) ++ [p_seq p] /\ i_local_epoch x = p_local_epoch p /\
+  get (i_local_seq x) (i_local_epoch x) = p_seq p /\ p_seq p <= seq_limit.
+Proof. exact imported_seq_within_limit. Qed.
+Print Assumptions C19_imported_seq_within_limit.
+
+Theorem C19_imported_sender_never_wraps :
+  forall p x (post : nat),
+  gen_internal p = Some x -> N.of_nat post < two64 - seq_limit ->
+  let e := i_local_epoch x in
+  NoDup (emitted (i_local_seq x) (repeat e post)) /\
+  (forall e' q, In (e', q) (emitted (i_local_seq x) (repeat e post)) -> e' = e /\ p_seq p <= q <= max_seq).
+Proof. exact imported_sender_never_wraps. Qed.
+Print Assumptions C19_imported_sender_never_wraps.
+
+(* regression witness: 2^64 - 1 was accepted; the counter wrapped to numbers already used *)
+Theorem C19_seq_beyond_limit_wraps_refuted :
+  exists pre s z p x,
+  i_local_seq s = counters_after [] pre /\ i_local_epoch s = 1 /\ get (i_local_seq s) 1 = 3 /\
+  s_seq z = two64 - 1 /\ unmarshal z = Some p /\ gen_internal_gen false p = Some x /\
+  key_inputs x = key_inputs s /\
+  emitted (i_local_seq x) [1; 1; 1] = [(1, 0); (1, 1)] /\
+  In (1, 0) (emitted [] pre) /\ In (1, 1) (emitted [] pre) /\
+  gen_internal p = None.
+Proof. exact seq_beyond_limit_wraps_refuted. Qed.
+Print Assumptions C19_seq_beyond_limit_wraps_refuted.
+
+Theorem C19_seq_limit_as_coded :
+  if import_checks_seq_limit
+  then forall p x, gen_internal p = Some x -> get (i_local_seq x) (i_local_epoch x) <= seq_limit
+  else exists p x, gen_internal p = Some x /\ In (1, 0) (emitted (i_local_seq x) [1; 1]).
+Proof. exact seq_limit_as_coded. Qed.
+Print Assumptions C19_seq_limit_as_coded.
+
+(* the other face of the limit: a connection that kept attempting writes after exhaustion cannot be
+   resumed; it could not have put anything on the wire; exactly 2^48 still resumes *)
+Theorem C19_exhausted_sender_refused :
+  forall s, seq_limit < get (i_local_seq s) (i_local_epoch s) -> import_export s = None.
+Proof. exact exhausted_sender_refused. Qed.
+Print Assumptions C19_exhausted_sender_refused.
+
+Theorem C19_exhausted_sender_sends_nothing :
+  forall (n : nat) st e, max_seq < get st e -> get st e + N.of_nat n < two64 -> emitted st (repeat e n) = [].
+Proof. exact exhausted_sender_sends_nothing. Qed.
+Print Assumptions C19_exhausted_sender_sends_nothing.
+
+Theorem C19_exhausted_counter_at_limit_resumes :
+  exists s s', get (i_local_seq s) (i_local_epoch s) = seq_limit /\ import_export s = Some s' /\
+               emitted (i_local_seq s') [1; 1] = [].
+Proof. exact exhausted_counter_at_limit_resumes. Qed.
+Print Assumptions C19_exhausted_counter_at_limit_resumes.
+
+(* F67 (repaired by 559b800): the Conn built by Resume starts in the finished state whatever
+   versions its options allow ... *)
+Theorem C19_resumed_conn_starts_finished :
+  forall vmin vmax, handshake_start vmin vmax true = StartFinished.
+Proof. exact resumed_conn_starts_finished. Qed.
+Print Assumptions C19_resumed_conn_starts_finished.
+
+(* ... regression witnesses: dual-stack and 1.3-only options made it start a new handshake *)
+Theorem C19_resume_ignored_refuted :
+  handshake_start_gen false v12 v13 true = StartDualStack /\
+  handshake_start_gen false v13 v13 true = StartNew13 /\
+  (forall vmin, handshake_start_gen false vmin v12 true = StartFinished).
+Proof. exact resume_ignored_refuted. Qed.
+Print Assumptions C19_resume_ignored_refuted.
+
+Theorem C19_resume_start_as_coded :
+  if resume_honoured_for_any_version
+  then forall vmin vmax, handshake_start vmin vmax true = StartFinished
+  else exists vmin vmax, handshake_start vmin vmax true <> StartFinished.
+Proof. exact resume_start_as_coded. Qed.
+Print Assumptions C19_resume_start_as_coded.
+
+(* Gaps of the code as written (known findings), stated as witnesses.
+   K-C19-1: a session on a suite that only the configuration's custom list knows is established and
+   exported, but its bytes are refused, the State object is refused, and no keying material can be
+   exported from it. *)
+Theorem C19_custom_suite_round_trip_refuted :
+  exists s p z,
+  i_suite s = Some 65305 /\ i_local_epoch s = 1 /\ i_master s <> [] /\
+  gen_state s = Ok p /\ serialize p = Some z /\
+  unmarshal z = None /\ gen_internal p = None /\ import_export s = None /\
+  (forall PHash reserved label n, conn_exporter PHash reserved s label n = None).
+Proof. exact custom_suite_round_trip_refuted. Qed.
+Print Assumptions C19_custom_suite_round_trip_refuted.
+
+(* K-C19-2: when the peer has not seen the final flight (its read epoch is still 0: the premise
+   [i_local_epoch s <= i_remote_epoch t] of C19_data_flows_after_import fails) the resumed owner
+   of that flight has nothing to repeat and nothing it writes is delivered. *)
+Theorem C19_final_flight_not_repeatable_refuted :
+  (forall s s', import_export s = Some s' -> can_repeat_final_flight s' = false) /\
+  (exists s s' t, import_export s = Some s' /\ mirrors s t /\
+     can_repeat_final_flight s = true /\ i_local_epoch s = 1 /\ i_remote_epoch t = 0 /\
+     delivers s t = false /\ delivers s' t = false /\ can_repeat_final_flight s' = false).
+Proof. exact final_flight_not_repeatable_refuted. Qed.
+Print Assumptions C19_final_flight_not_repeatable_refuted.
+
+(* K-C19-3: between Resume and its first Handshake/Read/Write the Conn reports a blank state. *)
+Theorem C19_resumed_conn_blank_before_start_refuted :
+  (forall x, gen_state (resumed_conn_before_start x) = Refused /\
+             obs_profile (resumed_conn_before_start x) = None /\
+             forall PHash reserved label n, conn_exporter PHash reserved (resumed_conn_before_start x) label n = None) /\
+  (exists s x, import_export s = Some x /\ gen_state x <> Refused /\ obs_profile x = Some 1 /\
+               obs_profile (resumed_conn_before_start x) <> obs_profile x).
+Proof. exact resumed_conn_blank_before_start_refuted. Qed.
+Print Assumptions C19_resumed_conn_blank_before_start_refuted.
 
 (* The serialised form has no integrity check: "altered bytes are rejected or give a connection
    that cannot authenticate records" does not hold for the code as written. *)
@@ -227,7 +355,7 @@ Definition C19_example_state : istate :=
 Example C19_example_exportable : exportable C19_example_state.
 Proof.
   split; [exists 49195; split; reflexivity|]. split; [discriminate|]. split; [vm_compute; reflexivity|].
-  split; discriminate.
+  split; [discriminate|]. split; [discriminate|]. vm_compute. discriminate.
 Qed.
 
 Example C19_example_roundtrip :
@@ -246,5 +374,6 @@ Example C19_example_main_case_shape :
            match gen_state C19_example_state with Ok p => p | _ => mkP 0 0 0 [] [] [] 0 0 0 [] [] [] false false [] [] [] [] end,
            match import_export C19_example_state with Some s' => s' | None => C19_example_state end,
            C19_example_state,
-           [(0, 0); (0, 1); (0, 2); (0, 3); (1, 0); (1, 1); (1, 2)], [(1, 3); (1, 4)], None, None) = true.
+           [(0, 0); (0, 1); (0, 2); (0, 3); (1, 0); (1, 1); (1, 2)], [(1, 3); (1, 4)], None, None,
+           (v12, v13, true, false)) = true.
 Proof. vm_compute. reflexivity. Qed.
